@@ -14,7 +14,7 @@ def run(ctx):
                      'element.include_subtypes); (direction) find_inverse_references is called only under is_inverse, find_references only '
                      'under !is_inverse, both with the current node and that filter; (name) a target is added only if the element has no '
                      'target name or the target node\'s browse name equals it, and what is added is the target of the reference just '
-                     'examined. Set equality with a reference graph search over arbitrary address spaces, and the element loop of '
+                     'examined; (enumeration) the reference searches underneath use no short-circuiting iterator adaptor, so every candidate reference is looked at. Set equality with a reference graph search over arbitrary address spaces, and the element loop of '
                      'find_nodes_relative_path, are not decided.')
     r.rule_text = 'E2 guard dominance and argument provenance in follow_relative_path'
     b = db.body(FN)
@@ -99,3 +99,36 @@ def run(ctx):
             r.fail(rule, 'push#%d' % i, 'a target can be added without its browse name having been compared with the element\'s target name', loc=c.loc)
     r.count('wiring_sites', n)
     r.floor('wiring', 'wiring_sites', n, 5)
+    complete_enumeration(ctx)
+
+
+SHORT = re.compile(r'Iterator::(find|find_map|take|take_while|next|nth|skip|skip_while|last|position|step_by|any|min|max|min_by|max_by|min_by_key|max_by_key)$|slice::(first|last)$|::first$|::last$')
+REFS = 'server::address_space::references::References::'
+
+
+def complete_enumeration(ctx, rule='complete-enumeration'):
+    """the reference searches a translation step relies on must look at every candidate reference: none of the iterator
+    pipelines inside find_references / find_inverse_references / filter_references_by_type may short-circuit"""
+    r, db = ctx.r, ctx.db
+    n = 0
+    for fn in ('find_references', 'find_inverse_references', 'filter_references_by_type'):
+        bodies = db.find_bodies(r'^' + re.escape(REFS + fn) + r'(::\{closure#\d+\})*$')
+        if not bodies:
+            r.lost(rule, fn, 'References::%s not found' % fn); continue
+        bad = []; pipes = 0
+        for b in bodies:
+            for c in b.calls():
+                if SHORT.search(c.callee):
+                    bad.append('%s at %s' % (c.callee.rsplit('::', 1)[-1], c.loc))
+                if re.search(r'Iterator::(filter|map|collect|for_each|cloned)$', c.callee) or c.callee.endswith('References::filter_references_by_type'):
+                    pipes += 1
+        n += pipes
+        if bad:
+            r.fail(rule, fn, 'References::%s stops at the first match or skips candidates (%s): references of the requested type between nodes that are '
+                   'linked more than once are not found' % (fn, ', '.join(bad[:3])), loc=bodies[0].loc)
+        elif pipes == 0:
+            r.lost(rule, fn + ':pipeline', 'no iterator pipeline recognised in References::%s' % fn)
+        else:
+            r.ok(rule, fn, 'References::%s filters / maps / collects every candidate reference (no short-circuiting adaptor)' % fn, loc=bodies[0].loc)
+    r.count('enumeration_steps', n)
+    r.floor(rule, 'enumeration_steps', n, 6)
